@@ -72,7 +72,7 @@ def is_known(known, prop, ob):
     return None
 
 
-def write_evidence(prop, tier, seed, obs, errors, wall, extra, assumptions, explanation):
+def write_evidence(prop, tier, seed, obs, errors, wall, extra, assumptions, explanation, n_known=0):
     os.makedirs(EVIDENCE_DIR, exist_ok=True)
     distinct = {o.key() for o in obs}
     samples = [o.as_dict() for o in obs[:6]]
@@ -103,8 +103,9 @@ def write_evidence(prop, tier, seed, obs, errors, wall, extra, assumptions, expl
         "coverage": cov,
         "assumptions": assumptions,
         "wall_s": round(wall, 3),
-        "violations": len(fails),
+        "violations": len(fails) - n_known,
     }
+    cov["known_findings_reported"] = n_known
     path = os.path.join(EVIDENCE_DIR, prop + ".json")
     tmp = path + ".tmp"
     with open(tmp, "w") as fh:
